@@ -36,3 +36,15 @@ package types
 //@ func (RID).WriteTo
 //@   nopanic[C05]
 //@   requires w != nil
+
+//@ spec fn u32val(Int) Int
+//@ func (RID).WriteTo
+//@   ensures[C19] result1 == nil ==> wlog(w) == wcat(old(wlog(w)), bval(rid))
+//@ func (ThresholdWrapper).WriteTo
+//@   nopanic[C05]
+//@   requires w != nil
+//@   ensures[C19,C09] result1 == nil ==> callcount(Write) == 1
+//@ func (SigningMessage).WriteTo
+//@   nopanic[C05]
+//@   requires w != nil
+//@   ensures[C19,C09] result1 == nil ==> wlog(w) == wcat(old(wlog(w)), bval(t))
